@@ -29,7 +29,7 @@ CONSTANTS Classes, Outs, Durs, Rets, Advs, Decs, BFaults, Ras, Modes,
           NCalls,       \* policy calls per behaviour
           Gaps          \* clock advances between calls
 
-L == INSTANCE RetryLoop WITH NRuns <- 1
+L == INSTANCE RetryLoop WITH NRuns <- 1, RunGaps <- {0}
 B == INSTANCE Breaker WITH ClassSet <- Classes
 
 None == -1
